@@ -143,7 +143,11 @@ def lp_execute(rec, seed=0):
         else:
             body = head + " ?" + last + ("\n" if out.endswith("\n") else "")
     codes = [(ord(ch) if ord(ch) < 128 else NA) for ch in body]
-    return {"rec": rec, "line": codes, "text": out, "exc": exc, "seed": seed}
+    # no line for a record of this size is anywhere near this long (every character escaped,
+    # every key a tag AND a field): what comes beyond is cut off - the rest no longer decodes
+    longest = 64 + 8 * (len(rec["name"]) + sum(len(k) + len(str(v)) + 4 for k, _, v in rec["args"]) + sum(len(k) + len(str(v)) + 4 for k, _, v in cfg.get("defaults", ())) + sum(len(k) + 2 for k in cfg.get("keys", ())))
+    codes = codes[:longest]
+    return {"rec": rec, "line": codes, "text": out[:4000], "exc": exc, "seed": seed}
 
 
 def js_execute(rec, seed=0):
